@@ -32,6 +32,10 @@ func c09Specs() []*bfsSpec {
 			Alphabet: []string{"want:2:1", "want:0:0", "unwant:2:1", "tick", "wsmode:404", "wsmode:body-short", "wsmode:body-long", "wsmode:shifted", "wsmode:honoured", "wsmode:body-fails-mid", "wsmode:transport-error",
 				"unchoke:0", "ans:0:old:full", "adv:2", "adv:31", "adv:400", "close:0", "evict", "setconf:0", "setconf:1"},
 			Depth: 5, DepthT: 6},
+		// pieces larger than 1 MiB: a web-seed fetch covers only part of the hole it was started for
+		{Name: "c09-webseed-4MiB-pieces", Cfg: worldCfg{Geom: "gbig", Peers: []peerCfg{{Fast: true, Ext: true, DontHave: 7}}, Webseed: true, AutoDrain: true},
+			Alphabet: []string{"want:0:1", "want:2:0", "unwant:0:1", "tick", "wsmode:404", "wsmode:body-short", "wsmode:honoured", "wsmode:body-fails-mid", "adv:2", "adv:31", "adv:400", "setconf:0", "setconf:1"},
+			Depth: 4, DepthT: 5},
 		{BothMapOrders: true, Name: "c09-manual-events", Cfg: worldCfg{Geom: "g2x2", Peers: []peerCfg{{Fast: true, Ext: true, DontHave: 7}, {Fast: true}}, AutoDrain: false},
 			Setup:    []string{"haveall:0", "drain", "haveall:1", "drain", "unchoke:0", "drain", "unchoke:1", "drain", "want:0:1", "tick"},
 			Alphabet: []string{"ev", "drain", "tick", "ans:0:old:full", "ans:1:old:full", "close:0", "close:1", "choke:0", "unwant:0:1", "adv:2"},
